@@ -54,6 +54,8 @@ type s3 struct {
 	cls  []*mirrorClient
 	db   string
 	ryw  int
+	bare     *bareCache
+	bareLast DBState
 }
 
 func init() {
@@ -582,6 +584,17 @@ func (s *s3) checkAll(i int) {
 		return
 	}
 	if e.Property == "C05" {
+		if s.bare == nil {
+			s.bare = newBareCache(e, simrt.NewRand(s.cfg.Seed^0xba4e))
+			s.bareLast = DBState{}
+		}
+		if s.bare != nil {
+			s.bare.apply(e, s.bareLast, db)
+			s.bareLast = db
+			if e.Stopped() {
+				return
+			}
+		}
 		checkServerIndexes(e, s.srv, db, "C05.server-index")
 		if e.Stopped() {
 			return
